@@ -170,7 +170,9 @@ Section UnitBodyGen.
 
   Lemma unit_body_gen : forall body (first : bool) st x pre pc f es0,
     body <> [] -> Rel st x ->
-    (if first then m_stack x = stk /\ m_prev x = Some ak /\ s_recipes st = rc /\ node_attrs (m_g x) ak = Ok a0 /\ es0 = []
+    (if first then m_stack x = stk /\ m_prev x = Some ak
+                   /\ rec_set (Some ak) [(1, a0, Some 1)] (s_recipes st) = rc ++ [(Some ak, [(1, a0, Some 1)])]
+                   /\ node_attrs (m_g x) ak = Ok a0 /\ es0 = []
      else m_stack x = Some ak :: stk /\ m_prev x <> None /\ s_recipes st = rc ++ [(Some ak, (1, a0, Some 1) :: es0)]) ->
     Ascii.eqb (last pre pc) "("%char = first -> Forall nob pre ->
     body_ok fo (m_pend x) body = true -> last_bond_none body ->
@@ -199,8 +201,7 @@ Section UnitBodyGen.
     assert (Hlen' : length rc = length (rev stk)) by (now rewrite rev_length).
     assert (Hop : opened st (last pre pc) = Ok (true, rev stk ++ [Some ak], rc ++ [(Some ak, (1, a0, Some 1) :: es0)])).
     { unfold opened. rewrite Hpc. destruct first.
-      - destruct Hfirst as (Es & Epk & Erc & Eatt & ->). rewrite Rp, Epk, Rg, Eatt. cbn [bind]. rewrite Rba, Es, Erc.
-        now rewrite (rec_set_absent _ _ _ Habs).
+      - destruct Hfirst as (Es & Epk & Erc & Eatt & ->). rewrite Rp, Epk, Rg, Eatt. cbn [bind]. rewrite Rba, Es, Erc. reflexivity.
       - destruct Hfirst as (Es & _ & Erc). rewrite Rbr, Rba, Es, Erc. reflexivity. }
     destruct body as [|b' r].
     - unfold last_bond_none in Hlast. cbn in Hlast. rewrite Hlast in *.
